@@ -116,6 +116,10 @@ func unaryArithmaticHelperfi(op func(float64) float64) KeyBuilderFunction {
 	}
 }
 
+// Largest accepted precision argument. A float64 has at most 1074 fractional digits, more only
+// pads zeros, and an absurd precision exhausts memory (also at compile time for constant arguments)
+const maxPrecision = 1100
+
 // {round <val> [precision=0]}
 func kfRound(args []KeyBuilderStage) (KeyBuilderStage, error) {
 	if !isArgCountBetween(args, 1, 2) {
@@ -125,6 +129,9 @@ func kfRound(args []KeyBuilderStage) (KeyBuilderStage, error) {
 	precision, precisionOk := EvalArgInt(args, 1, 0)
 	if !precisionOk {
 		return stageArgError(ErrConst, 1)
+	}
+	if precision > maxPrecision {
+		return stageArgError(ErrValue, 1)
 	}
 
 	return func(context KeyBuilderContext) string {
